@@ -366,13 +366,30 @@ def run_one(cfg, decisions=None, keep_events=False):
                 if n_impl > 100:
                     probe("mesh_over_100_points_real_driver")
                     nontrivial = True
-                ref_name = "single"
+                # Schedule independence.  The current kernel adds the same terms in
+                # the same order whatever the split, so the buffers are bit-identical
+                # (probed); the *oracle* allows rounding-level differences so that an
+                # implementation which combined per-invocation partial sums would not
+                # be flagged for the last bits.
+                ref = np.frombuffer(buffers["single"], kernel.dtype).astype("d")
+                stol = 1e-12 if cfg["dtype"] == "double" else 2e-5
+                scale_s = np.abs(ref)
+                if contrib is not None and n_impl == n_loop:
+                    scale_s = np.maximum(scale_s, np.array(mags[-1], "d"))
+                identical = True
                 for name, b in buffers.items():
-                    if b != buffers[ref_name]:
-                        fail("S2", "schedule %s leaves a different buffer than the single invocation "
-                             "(mesh of %d points, strides %r)" % (name, n_impl, slot_stride[:len(order)]),
+                    if b == buffers["single"]:
+                        continue
+                    identical = False
+                    arr = np.frombuffer(b, kernel.dtype).astype("d")
+                    if not np.all(agree(arr, ref, stol * scale_s + 1e-300)):
+                        i = int(np.argmax(~agree(arr, ref, stol * scale_s + 1e-300)))
+                        fail("S2", "schedule %s leaves total[%d] = %r where the single invocation leaves %r "
+                             "(mesh of %d points, strides %r)" % (name, i, float(arr[i]), float(ref[i]), n_impl,
+                                                                   slot_stride[:len(order)]),
                              schedule=name, cause="schedule_dependence")
                         break
+                probe("schedules_bit_identical" if identical else "schedules_differ_in_last_bits")
         # ---- the public interface against the reference sums -------------------------------
         if not violations and cfg["dtype"] == "double" and not ambiguous:
             if n_ref == 0:
@@ -686,7 +703,7 @@ RULE = ("one case = one workload (compiled model, 1-D or 2-D q, parameter set wi
 
 ASSUMPTIONS = [
     "the reference shares the per-point physics with the implementation (each mesh point is evaluated alone through the same compiled kernel as a one-point mesh); what is independent is the mesh enumeration, gating, accumulation, restart and normalisation",
-    "prefix sums are compared at 1e-11 relative to the sum of magnitudes (double precision only); schedules are compared bit for bit in both precisions",
+    "prefix sums are compared at 1e-11 relative to the sum of magnitudes (double precision only); schedules are compared with each other at 1e-12 (double) / 2e-5 (single) of the magnitude sums - bit-identity is measured and reported as a probe, not demanded",
     "workloads whose cutoff lies within 8 ulp of a multi-loop weight product are checked for schedule independence only (the reference cannot decide '>' there)",
     "the input dimensions (models, parameter sets, distributions, limits) are sampled workload variety; the dimension this technique decides is the invocation schedule",
     "GPU back ends (per-call private accumulators) are not exercised",
